@@ -1422,6 +1422,91 @@ def rule_best_path_moves(ctx, m):
         ctx.sample({'back-tracker': fn, 'shifts (D, C, A-B)': shifts})
 
 
+def rule_best_path_prob_moves(ctx, m):
+    """dtw_best_path_prob (sampled back-tracking, used by DBA with nb_prob_samples): in each region loop the three candidates
+    probs[0] (diagonal), probs[1] (left), probs[2] (up) are read at the positions that the writer's layout shift of that region dictates, and the
+    three moves update position / row / column accordingly -- the same table as the deterministic back-trackers."""
+    pdefs, praw = parts_defs(m)
+    winfo = analyse_writer(m, WRITERS[0])
+    wregs = {R.name: R for R in winfo['regions']}
+    with ctx.scoped(lambda r, t: False):
+        for R in winfo['regions']:
+            _region_rules(ctx, R, winfo['amap'], pdefs, False)
+    shifts = [wregs['D'].Delta, wregs['C'].Delta, wregs['A'].Delta]
+    guards_want = [('attr', ('var', 'p'), 'ri3'), ('attr', ('var', 'p'), 'ri2'), ('num', 0)]
+    names = ['D', 'C', 'A-B']
+    fn = 'dtw_best_path_prob'
+    f = m.cfunc(fn)
+    if f is None:
+        raise AnalysisError('anchor vanished: C function %s' % fn)
+    loops = [s for s in f.body if s.k == 'while']
+    if len(loops) != 3:
+        ctx.violation('R-MAP', f.file, fn, 'back-tracking loops', 'expected three region loops, found %d' % len(loops), f.line)
+        return
+
+    def pos(e):
+        t = sym.from_ir(e, atom=lambda x: {'ri_width': 'RW', 'ri_widthp': 'RWP', 'wpsi': 'Q'}.get(x[1]) if x[0] == 'var' else None)
+        co = dict(t[1]) if t[0] == 'lin' else {}
+        row = 'cur' if co.get('RW') == 1 else ('prev' if co.get('RWP') == 1 else None)
+        return (row, t[2]) if co.get('Q') == 1 and row else None
+
+    def moves(body):
+        mv = {'Q': 0, 'rip': 0, 'cip': 0, 'rowshift': False}
+        for s_ in body:
+            if s_.k == 'assign' and s_.target == ('var', 'wpsi'):
+                t = sym.from_ir(s_.value, atom=lambda x: 'Q' if x == ('var', 'wpsi') else None)
+                mv['Q'] = t[2] if t[0] == 'lin' and dict(t[1]).get('Q') == 1 else None
+            if s_.k == 'assign' and s_.target == ('var', 'rip') and s_.d.get('aug') == '-':
+                mv['rip'] -= 1
+            if s_.k == 'assign' and s_.target == ('var', 'cip') and s_.d.get('aug') == '-':
+                mv['cip'] -= 1
+            if s_.k == 'assign' and s_.target == ('var', 'ri_width') and s_.value == ('var', 'ri_widthp'):
+                mv['rowshift'] = True
+        return mv
+    for k, lp in enumerate(loops):
+        Delta = shifts[k]
+        c = lp.cond
+        okg = c[0] == 'bin' and c[1] == 'and' and c[2] == ('bin', '>', ('var', 'rip'), guards_want[k]) and c[3] == ('bin', '>', ('var', 'cip'), ('num', 0))
+        ctx.check(okg, 'R-MAP', f.file, fn, 'loop %s guard' % names[k], 'the %s loop must run while rip > %s and cip > 0; found %s' % (names[k], fmt(guards_want[k]), fmt(c)), lp.line)
+        # candidates: first assignment probs[k] = prev - wps[...]
+        cand = {}
+        prev_ok = False
+        for s_ in lp.body:
+            if s_.k == 'assign' and s_.target == ('var', 'prev') and s_.value[0] == 'idx' and s_.value[1] == ('var', 'wps'):
+                prev_ok = pos(s_.value[2]) == ('cur', 0)
+            if s_.k == 'assign' and s_.target[0] == 'idx' and s_.target[1] == ('var', 'probs') and s_.target[2][0] == 'num' and s_.target[2][1] not in cand:
+                v = s_.value
+                if v[0] == 'bin' and v[1] == '-' and v[2] == ('var', 'prev') and v[3][0] == 'idx' and v[3][1] == ('var', 'wps'):
+                    cand[s_.target[2][1]] = pos(v[3][2])
+        want = {0: ('prev', Delta - 1), 1: ('cur', -1), 2: ('prev', Delta)}
+        ctx.check(prev_ok and cand == want, 'R-MAP', f.file, fn, 'loop %s candidates' % names[k],
+                  'with a per-row layout shift of %d the candidates must be prev - diagonal (previous row, Q%+d), prev - left (this row, Q-1), prev - up (previous row, Q%+d), '
+                  'prev being the current cell; found %s' % (Delta, Delta - 1, Delta, sorted(cand.items())), lp.line)
+        chain = [s_ for s_ in lp.body if s_.k == 'if' and fmt(s_.cond).replace('(', '').replace(')', '') == 'rnum < probs[0]']
+        if len(chain) != 1:
+            ctx.violation('R-MAP', f.file, fn, 'loop %s move chain' % names[k], 'no `rnum < probs[0]` move selection found', lp.line)
+            continue
+        ch = chain[0]
+        arms = [ch.then]
+        ok_chain = len(ch.els) == 1 and ch.els[0].k == 'if' and fmt(ch.els[0].cond).replace('(', '').replace(')', '') == 'rnum < probs[1]'
+        if ok_chain:
+            arms += [ch.els[0].then, ch.els[0].els]
+        if not ok_chain or len(arms) != 3:
+            ctx.violation('R-MAP', f.file, fn, 'loop %s move chain' % names[k], 'expected the cumulative chain rnum < probs[0] (diagonal) / rnum < probs[1] (left) / else (up)', ch.line)
+            continue
+        md, ml, mu = moves(arms[0]), moves(arms[1]), moves(arms[2])
+        okm = md == {'Q': Delta - 1, 'rip': -1, 'cip': -1, 'rowshift': True} and ml == {'Q': -1, 'rip': 0, 'cip': -1, 'rowshift': False} \
+            and mu == {'Q': Delta, 'rip': -1, 'cip': 0, 'rowshift': True}
+        ctx.check(okm, 'R-MAP', f.file, fn, 'loop %s moves' % names[k],
+                  'moves must be diagonal (row-1, col-1, Q%+d), left (col-1, Q-1), up (row-1, Q%+d) with the row bases shifted on every row change; found diag=%s left=%s up=%s'
+                  % (Delta - 1, Delta, md, ml, mu), ch.line)
+        # cumulative probabilities: probs[1] = (probs[0] + probs[1]) / sum before probs[0] = probs[0] / sum, probs[2] = 1
+        order = [fmt(s_.target) for s_ in lp.body if s_.k == 'assign' and s_.target[0] == 'idx' and s_.target[1] == ('var', 'probs')]
+        ctx.check(order[-3:] == ['probs[2]', 'probs[1]', 'probs[0]'], 'R-MAP', f.file, fn, 'loop %s cumulative order' % names[k],
+                  'the cumulative thresholds must be formed as probs[2] = 1, probs[1] = (probs[0] + probs[1]) / sum, then probs[0] = probs[0] / sum '
+                  '(probs[0] is overwritten last); found order %s' % order[-3:], lp.line)
+
+
 def rule_wps_exits(ctx, m):
     """The compact writers honour max_length_diff like the distance-only routine, and their psi_2e end scan stays inside
     the band of the last row."""
